@@ -33,6 +33,7 @@ type Version struct {
 	NoCond      bool   `json:"no_cond,omitempty"`     // ignore conditional request headers (always full answer)
 	CondStatus  int    `json:"cond_status,omitempty"` // answer conditional requests with this status instead (e.g. 500)
 	AbortAfter  int    `json:"abort_after,omitempty"` // >0: close the connection after this many body bytes
+	SlowMs      int    `json:"slow_ms,omitempty"`     // >0: pause this long in the middle of the body (a transfer that takes time)
 }
 
 // Site serves resources by path; each path has a current Version that the harness can bump.
@@ -194,6 +195,15 @@ func (s *Site) Handler() Handler {
 				f.Flush()
 			}
 			panic(http.ErrAbortHandler)
+		}
+		if v.SlowMs > 0 && !v.Chunked && len(body) > 1 {
+			w.Write(body[:len(body)/2])
+			if f, ok := w.(http.Flusher); ok {
+				f.Flush()
+			}
+			time.Sleep(time.Duration(v.SlowMs) * time.Millisecond)
+			w.Write(body[len(body)/2:])
+			return
 		}
 		if v.Chunked {
 			// force chunked framing: write in pieces with flushes and no Content-Length
